@@ -114,7 +114,33 @@ CHECKS = {
                      "and disallowed is judged online: exactly the live nameplates of the caller's app, each once / always empty.",
                 nontrivial_rule="a history counts if all its configuration pairs were compared; distinct by history hash.",
                 technique="runtime monitoring: differential comparison across configurations + online oracle on list answers",
-                floors={"quick": {"c18_config_pair": 1200, "list_answer": 10000}}),
+                floors={"quick": {"c18_config_pair": 1200, "list_answer": 3000}}),
+    "C19": dict(module="mon.checks.c19", level="fault_enumeration", exhaustive=True,
+                rule="First-time creation of both schemas interrupted at every enumerated point: process death (fork + os._exit) at each SQL statement seen by "
+                     "sqlite's trace callback and at each audited file-system call; SIGKILL injected by strace at write-side system calls of a real subprocess "
+                     "(quick: every 5th, thorough: all); exceptions at each audited file-system call (OSError), at each sqlite authorizer request inside the "
+                     "schema script (denial) and at each source line of the creation functions (sys.monitoring failpoint). After each: target absent or complete "
+                     "(integrity_check, version row, schema dump equal to a fresh database) and the next normal start succeeds. Generated pre-existing files "
+                     "of 13 classes judged for keep / reject-and-byte-identical / DBAlreadyExists / DBDoesntExist.",
+                nontrivial_rule="one case per (injection kind, schema, event index) that actually interrupted the creation, and per generated pre-existing file; all are non-trivial.",
+                level_text="Fault enumeration: the event spaces (statements, audited fs calls, authorizer requests, source lines; syscalls in the thorough tier) "
+                           "of the real creation code are enumerated completely and every point is injected once on the real code and real files.",
+                technique="runtime fault injection on the real code: kill/exception at every enumerated event, oracle over the files left behind",
+                budget={"quick": 90, "thorough": 900},
+                floors={"quick": {"c19_crash_point": 300, "c19_die-stmt": 30, "c19_die-fs": 10, "c19_raise-fs": 8, "c19_raise-auth": 40,
+                                  "c19_raise-line": 30, "c19_strace": 20, "c19_existing_file": 150}}),
+    "C20": dict(module="mon.checks.c20", level="fault_enumeration", exhaustive=True,
+                rule="Generated version-1 usage databases (0-200 rows per table, NULLs, 2^63-1, floats, blobs, long and NUL-containing strings, several status rows) "
+                     "upgraded through the real create_or_upgrade_usage_db; per input the upgrade is interrupted at every SQL statement (trace callback, fork + "
+                     "os._exit), every audited file-system call (also inside shutil.copy), write-side system calls under strace SIGKILL (quick: every 3rd, thorough: "
+                     "all), and by exceptions (OSError at fs calls, authorizer denial inside the upgrade script). Oracle: rows of the main file never lost; starting "
+                     "again succeeds and yields schema == fresh v2, all old rows, backup with the old content (byte-identical when uninterrupted).",
+                nontrivial_rule="one case per (injection kind, input, event index) that actually interrupted the upgrade, plus one per uninterrupted input; all non-trivial.",
+                level_text="Fault enumeration: the event spaces of the real upgrade path are enumerated completely per input and every point is injected once on the real code and real files.",
+                technique="runtime fault injection on the real code: kill/exception at every enumerated event of the upgrade, oracle over rows, schema and backup bytes",
+                budget={"quick": 90, "thorough": 900},
+                floors={"quick": {"c20_crash_point": 150, "c20_die-stmt": 15, "c20_die-fs": 10, "c20_raise-fs": 8, "c20_raise-auth": 20,
+                                  "c20_strace": 20, "c20_uninterrupted": 60, "c20_backup_checked": 150}}),
 }
 
 LEVEL_TEXT = ("Exploration by runtime monitoring: the real server code is executed on thousands of generated and directed "
